@@ -7,6 +7,7 @@ import (
 	"github.com/ugorji/go/codec"
 	"reflect"
 	"sort"
+	"strconv"
 	"strings"
 	"time"
 	"unsafe"
@@ -112,6 +113,8 @@ func SexpToJson(exp Sexp) string {
 			return "null"
 		}
 		return exp.SexpString(nil)
+	case *SexpUint64:
+		return strconv.FormatUint(e.Val, 10)
 	default:
 		return exp.SexpString(nil)
 	}
